@@ -19,6 +19,7 @@ EXPLANATION = (
     "the call, returns the checked output, and its partial re-application forwards every option. (R6) inside check_types' argument handling, a pass-through `return arg` without validation is never reached for None under a non-Optional annotation; (R7) coroutine detection (inspect.iscoroutinefunction) is applied to the innermost function through _unwrap_fn. " 
     " (R8) definite assignment: no function of pandera/decorators.py reads a local that a branch-only path from its entry leaves unassigned (CFG may-analysis, optimistic about try bodies and loop bodies, correlated guards pruned, non-empty local accumulators accepted as witnesses) - an UnboundLocalError there would escape the decorated call. " 
     " (R9) no write-back by slice arithmetic on an un-normalised obj_getter position (`out[:g] + (v,) + out[g + 1:]` is wrong for g == -1); (R10) the accessor keeps the validated-schema mark on the accessor instance only (`self._schema`), never through the data object (`attrs`), which pandas propagates to derived frames. " 
+    " (R11) AnnotationInfo reduces a union annotation to its first member only under a test of `optional`; (R12) typing.*.pydantic_validate returns the object that schema.validate returned, not the raw input. " 
     "NOT decided: "
     "argument binding over all signature shapes (inspect.signature semantics), from_format/to_format conversions."
 )
